@@ -1020,6 +1020,105 @@ func (x *c15scenX) weightRefused(fd *ast.FuncDecl) string {
 	return fmt.Sprintf("/-- regenerated from `components/providers/scenario/http/decode.go` `decodeAmmo`: when a weight is refused -/\ndef weightRefused (w : Int) : Prop := %s\n\ninstance (w : Int) : Decidable (weightRefused w) := by unfold weightRefused; exact inferInstance\n", out)
 }
 
+// checkSpread (round 6, repair 4cfc662): `config.CheckSpread(names, total)` must be, in any order of its statements,
+// one refusal `if <cond on total> { return err }` and one loop over `names` whose body is the single refusal
+// `if <cond on cnt> { return err }`, ending in `return nil`. The two conditions are emitted as Lean predicates.
+func (x *c15scenX) checkSpread(fd *ast.FuncDecl) string {
+	x.ctx = "CheckSpread"
+	ps := fd.Type.Params.List
+	var pnames []string
+	for _, f := range ps {
+		for _, n := range f.Names {
+			pnames = append(pnames, n.Name)
+		}
+	}
+	if len(pnames) != 2 {
+		return x.fail(fd, "expected CheckSpread(names, total)")
+	}
+	namesV, totalV := pnames[0], pnames[1]
+	isRefusal := func(s ast.Stmt) (*ast.IfStmt, bool) {
+		is, ok := s.(*ast.IfStmt)
+		if !ok || is.Init != nil || is.Else != nil || len(is.Body.List) != 1 {
+			return nil, false
+		}
+		r, ok := is.Body.List[0].(*ast.ReturnStmt)
+		if !ok || len(r.Results) != 1 || x.src(r.Results[0]) == "nil" {
+			return nil, false
+		}
+		return is, true
+	}
+	total, cnt := "", ""
+	body := fd.Body.List
+	if len(body) == 0 {
+		return x.fail(fd, "empty body")
+	}
+	last, ok := body[len(body)-1].(*ast.ReturnStmt)
+	if !ok || len(last.Results) != 1 || x.src(last.Results[0]) != "nil" {
+		return x.fail(fd, "CheckSpread does not end in `return nil`")
+	}
+	for _, s := range body[:len(body)-1] {
+		if is, ok := isRefusal(s); ok && total == "" {
+			x.vars = map[string]string{totalV: "total"}
+			total = x.expr(is.Cond, nil)
+			x.vars = nil
+			continue
+		}
+		if rs, ok := s.(*ast.RangeStmt); ok && cnt == "" && x.src(rs.X) == namesV && rs.Value != nil && len(rs.Body.List) == 1 {
+			if is, ok := isRefusal(rs.Body.List[0]); ok {
+				x.vars = map[string]string{x.src(rs.Value): "cnt"}
+				cnt = x.expr(is.Cond, nil)
+				x.vars = nil
+				continue
+			}
+		}
+		return x.fail(s, "statement of CheckSpread: %s", x.src(s))
+	}
+	if total == "" || cnt == "" {
+		return x.fail(fd, "CheckSpread lacks the refusal of the total or of a count")
+	}
+	var b strings.Builder
+	b.WriteString("/-! regenerated from `components/providers/scenario/config/decode.go` func `CheckSpread` (repair 4cfc662) -/\n\n")
+	fmt.Fprintf(&b, "/-- when the ring size computed by `SpreadNames` is refused -/\ndef spreadTotalRefused (total : Int) : Prop := %s\n\ninstance (total : Int) : Decidable (spreadTotalRefused total) := by unfold spreadTotalRefused; exact inferInstance\n\n", total)
+	fmt.Fprintf(&b, "/-- when the copy count of one scenario is refused -/\ndef spreadCntRefused (cnt : Int) : Prop := %s\n\ninstance (cnt : Int) : Decidable (spreadCntRefused cnt) := by unfold spreadCntRefused; exact inferInstance\n", cnt)
+	return b.String()
+}
+
+// spreadChecked: in `decodeAmmo` the pair returned by `config.SpreadNames` goes through `config.CheckSpread` (error
+// returned) BEFORE `make([]…, 0, size)` allocates with it.
+func (x *c15scenX) spreadChecked(fd *ast.FuncDecl) string {
+	x.ctx = "decodeAmmo"
+	namesV, sizeV := "", ""
+	stage := 0
+	for _, s := range fd.Body.List {
+		switch v := s.(type) {
+		case *ast.AssignStmt:
+			if len(v.Lhs) == 2 && len(v.Rhs) == 1 && strings.HasPrefix(x.src(v.Rhs[0]), "config.SpreadNames(") {
+				namesV, sizeV = x.src(v.Lhs[0]), x.src(v.Lhs[1])
+				stage = 1
+				continue
+			}
+			if len(v.Rhs) == 1 && strings.HasPrefix(x.src(v.Rhs[0]), "make(") && sizeV != "" && strings.Contains(x.src(v.Rhs[0]), sizeV) {
+				if stage != 2 {
+					return x.fail(s, "`make` uses the size of SpreadNames before config.CheckSpread has accepted it")
+				}
+				stage = 3
+			}
+		case *ast.IfStmt:
+			if stage == 1 && v.Init != nil && v.Else == nil && x.src(v.Cond) == "err != nil" && len(v.Body.List) == 1 {
+				if as, ok := v.Init.(*ast.AssignStmt); ok && len(as.Rhs) == 1 && x.src(as.Rhs[0]) == "config.CheckSpread("+namesV+", "+sizeV+")" {
+					if r, ok := v.Body.List[0].(*ast.ReturnStmt); ok && len(r.Results) == 2 && x.src(r.Results[1]) == "err" {
+						stage = 2
+					}
+				}
+			}
+		}
+	}
+	if stage != 3 {
+		return x.fail(fd, "expected `names, size := config.SpreadNames(…); if err := config.CheckSpread(names, size); err != nil { return nil, err }; … make(…, size)` (stage %d)", stage)
+	}
+	return "/-- regenerated from `decodeAmmo`: the result of `SpreadNames` passes `config.CheckSpread` (its error is returned) before `make` allocates the ring -/\ndef spreadChecked : Bool := true\n"
+}
+
 func c15scenExtra(t *tr) string {
 	const (
 		pMath = "github.com/yandex/pandora/lib/math"
@@ -1062,6 +1161,10 @@ func c15scenExtra(t *tr) string {
 	xd := &c15scenX{t: t, pkg: pk[pDec], calls: map[string]string{}}
 	if fd := need(pk[pDec], "", "decodeAmmo"); fd != nil {
 		b.WriteString(xd.weightRefused(fd) + "\n")
+		b.WriteString(xd.spreadChecked(fd) + "\n")
+	}
+	if fd := need(pk[pCfg], "", "CheckSpread"); fd != nil {
+		b.WriteString(xc.checkSpread(fd) + "\n")
 	}
 	xg := &c15scenX{t: t, pkg: pk[pGun], calls: map[string]string{}}
 	sh, re := need(pk[pGun], "ScenarioGun", "shoot"), need(pk[pGun], "ScenarioGun", "reportErr")
